@@ -98,6 +98,15 @@ func (n *Node) CreateDB(name string, shards int) error {
 	return n.Engine.CreateShards(name, n.Opt, ids...)
 }
 
+// CreateDBShards creates a database holding the given shards only (the part of a database one storage node holds).
+func (n *Node) CreateDBShards(name string, shards []int) error {
+	ids := make([]models.ShardID, len(shards))
+	for i, s := range shards {
+		ids[i] = models.ShardID(s)
+	}
+	return n.Engine.CreateShards(name, n.Opt, ids...)
+}
+
 // Write writes points into one shard through the family write path (memdb + metadata/index workers).
 func (n *Node) Write(db string, shardID int, pts []rows.Point) error {
 	shard, ok := n.Engine.GetShard(db, models.ShardID(shardID))
@@ -133,7 +142,7 @@ func (n *Node) Write(db string, shardID int, pts []rows.Point) error {
 
 // WriteRouted writes a batch the way a broker does: BrokerBatchRows -> shard group iterator (routing hash) ->
 // family iterator -> one block per (shard, family) -> storage rows of that family.
-func (n *Node) WriteRouted(db string, shards int, pts []rows.Point) error {
+func (n *Node) WriteRouted(db string, shards int, pts []rows.Point, own ...func(int) bool) error {
 	batch := metric.NewBrokerBatchRows()
 	defer batch.Release()
 	for _, p := range pts {
@@ -152,6 +161,9 @@ func (n *Node) WriteRouted(db string, shards int, pts []rows.Point) error {
 	it := batch.NewShardGroupIterator(int32(shards))
 	for it.HasRowsForNextShard() {
 		shardIdx, famIt := it.FamilyRowsForNextShard(interval)
+		if len(own) > 0 && !own[0](int(shardIdx)) {
+			continue // the shard lives on another node
+		}
 		shard, ok := n.Engine.GetShard(db, models.ShardID(shardIdx))
 		if !ok {
 			return fmt.Errorf("shard %d of %s not found", shardIdx, db)
@@ -188,6 +200,9 @@ type Layout struct {
 	StrangerDB string
 	// FailLeaf: one more leaf node whose task fails with a real error (not a "not found")
 	FailLeaf bool
+	// LeafDB: leaf i answers from this database whatever database the request names (a storage node with its own
+	// metadata: metric / field / tag key / tag value ids of its own); "" or missing = the named database
+	LeafDB []string
 }
 
 // aliasEngine answers every database lookup with one fixed database.
@@ -293,6 +308,8 @@ func (n *Node) Query(db, sqlText string, lay Layout) (*commonmodels.ResultSet, e
 		var eng tsdb.Engine = n.Engine
 		if lay.StrangerDB != "" && i == len(leaves)-1 {
 			eng = &aliasEngine{Engine: n.Engine, db: lay.StrangerDB}
+		} else if i < len(lay.LeafDB) && lay.LeafDB[i] != "" {
+			eng = &aliasEngine{Engine: n.Engine, db: lay.LeafDB[i]}
 		}
 		processors[me] = query.NewLeafTaskProcessor(ln, eng, fct)
 		t := &models.Target{Indicator: me}
